@@ -1,4 +1,5 @@
 """C03 - format detection is exclusive, conservative about raw, and total."""
+import io
 import os
 import shutil
 import tempfile
@@ -22,7 +23,11 @@ RULE = ('contents: every subset-overlay of the nine format signatures (images.SI
         'signatures, text files (with a late non-ASCII byte, a NUL, a createType line early or late) and binary '
         'files; x allowed_formats from a bounded family of 19 subsets (with / without raw, singletons, all) x '
         'read-size sequences (1, 17, 64, 512, 4096, 65536, 1 MiB, random with empty reads; always a final empty read); '
-        'the decision (format / formats) is read three times after every read and after close; x expected_format '
+        'the public interface used in every legal way of the pinned signatures (InspectWrapper(source, '
+        'expected_format=None, allowed_formats=None) with each optional argument positional / keyword / omitted, '
+        'read(size) by keyword, sizes None / -1 / -2 / 0, io.BytesIO or a real file, iterator sources consumed by '
+        'next / for / break-and-resume / iter() twice, close() twice, detect_file_format / get_inspector positional '
+        'and by keyword) with decisions equal to those of the plain usage; the decision (format / formats) is read three times after every read and after close; x expected_format '
         'none / inside / outside allowed_formats / unknown name (all 19+2 subsets x all 12 names on six contents), '
         'names passed as str, (str, Enum) member, str subclass, subclass with overridden __str__/__repr__/__format__; '
         'plus sequences in one process: '
@@ -78,11 +83,13 @@ def cut_abort(p, expected):
     return '\t'.join([parts[0], parts[1], '-', ';'.join(own)])
 
 
-def impl_wrap(al, data, sizes, expected=None, names='str'):
+def impl_wrap(al, data, sizes, expected=None, names='str', u=None):
     """the implementation's `wrap` rendering (every decision read three times; names optionally passed as str
     subclasses), with anything that escapes (e.g. from close()) rendered instead of crashing"""
     try:
-        return cut_abort(proj(G.run_wrap_b(al, expected, data, sizes, names)), expected)
+        return cut_abort(proj(G.run_wrap_b(al, expected, data, sizes, names, u)), expected)
+    except G.CallFormError as e:
+        return 'CALL-FORM-REJECTED: %s' % e
     except Exception as e:
         return 'ESCAPED:%s' % type(e).__name__
 
@@ -144,15 +151,29 @@ def gen_cases(ctx):
     for c in out:
         e, nk = pick_opts(rng, c[2])
         out2.append(tuple(c) + ({'expected': e, 'names': nk},))
-    return out2 + cross_cases(rng, ctx.quick)
+    res = []
+    for label, data, al, sizes, o in out2 + cross_cases(rng, ctx.quick):
+        # how the public interface is used: constructor call form, read(size=) keyword, real file, unusual read
+        # sizes (None / -1 / -2 / 0), or an iterator source consumed by one of the iteration protocols
+        uu = G.pick_usage(rng, o['expected'], al, iterator=False, p_plain=0.5)
+        if uu != G.DEFAULT_USAGE:
+            if rng.random() < 0.35 and len(sizes) <= 64:
+                uu['iterator'] = True
+                uu['proto'] = rng.choice(G.ITER_PROTOS)
+            elif rng.random() < 0.6:
+                sizes = G.vary_ops(sizes, len(data), rng, uu['source'])
+        res.append((label, data, al, sizes, dict(o, usage=uu)))
+    return res
 
 
-def case_of(label, data, allowed, sizes, sizes_b=None, prior=None, prior_b=None, expected=None, names='str'):
+def case_of(label, data, allowed, sizes, sizes_b=None, prior=None, prior_b=None, expected=None, names='str', u=None):
     c = {'label': label, 'allowed': allowed, 'content': insp_impl.content_field(data), 'sizes': list(sizes)}
     if expected is not None:
         c['expected'] = expected
     if names != 'str':
         c['names'] = names
+    if u and G.usage(u) != G.DEFAULT_USAGE:
+        c['usage'] = G.usage(u)
     if sizes_b is not None:
         c['sizes_b'] = list(sizes_b)
     if prior is not None:
@@ -174,8 +195,11 @@ def correspondence(ctx):
     out = []
     for (label, data, al, sizes, o), rep in zip(cases, replies):
         ctx.evaluations += 1
-        exp, nk = o['expected'], o['names']
-        pi, pm = impl_wrap(al, data, sizes, exp, nk), cut_abort(proj(rep), exp)
+        exp, nk, uu = o['expected'], o['names'], o.get('usage')
+        pi, pm = impl_wrap(al, data, sizes, exp, nk, uu), cut_abort(proj(rep), exp)
+        if uu and uu != G.DEFAULT_USAGE:
+            ctx.count('ctor-form/' + str(uu['form']))
+            ctx.count('consumed-by/' + (('iteration:' + uu['proto']) if uu.get('iterator') else 'read:' + uu['source']))
         ctx.count('expected/' + ('none' if exp is None else 'unknown' if exp not in G.ALLF else
                                  'allowed' if (not al or exp in al) else 'outside-allowed'))
         ctx.count('names-as/' + nk)
@@ -194,7 +218,7 @@ def correspondence(ctx):
             ctx.sample({'label': label, 'allowed': al, 'length': len(data), 'reads': sizes[:8],
                         'decisions': decs[:6], 'after_close': final}, 8)
         if pi != pm:
-            out.append(Disagreement(case_of(label, data, al, sizes, expected=exp, names=nk), pi, pm))
+            out.append(Disagreement(case_of(label, data, al, sizes, expected=exp, names=nk, u=uu), pi, pm))
     # sequences: a valid image of some format is inspected first, then short / other streams in the same
     # process; the model has no state between requests, so the later stream must look exactly as it does alone
     priors = G.c03_priors(rng, ctx.quick)
@@ -250,16 +274,45 @@ def inspect_prior(priors):
             pass
 
 
+def show_usage(u, ops):
+    if not u or G.usage(u) == G.DEFAULT_USAGE:
+        return ''
+    uu = G.usage(u)
+    bits = ['%s=%s' % (k, v) for k, v in sorted(uu.items()) if v != G.DEFAULT_USAGE.get(k)]
+    if u.get('iterator'):
+        bits.append('iterator source')
+    return ' [usage: %s; read ops %s]' % (', '.join(bits), list(ops)[:12])
+
+
+def diff_summary(a, b):
+    """where two run summaries (decisions, final, matches, escaped) first differ"""
+    for k, (x, y) in enumerate(zip(a[0], b[0])):
+        if x != y:
+            return 'after chunk %d the plain usage decides %s / %s, this usage %s / %s' % (
+                k, x[0], list(x[1]) if isinstance(x[1], tuple) else x[1], y[0], list(y[1]) if isinstance(y[1], tuple) else y[1])
+    if len(a[0]) != len(b[0]):
+        return 'the plain usage delivered %d chunks, this usage %d' % (len(a[0]), len(b[0]))
+    if a[1] != b[1]:
+        return 'after close the plain usage decides %s, this usage %s' % (a[1], b[1])
+    if a[2] != b[2]:
+        return 'the inspectors that match are %s with the plain usage, %s with this one' % (
+            [k for k, v in a[2] if v], [k for k, v in b[2] if v])
+    return 'with the plain usage %s escaped from the reads, with this usage %s' % (a[3], b[3])
+
+
 def summary(t):
     return (tuple(t['decisions']), t['final'], tuple(sorted(t['matches'].items())), t['escaped'])
 
 
-def oracle(allowed, data, sizes, prior=(), expected=None, names='str'):
+def oracle(allowed, data, sizes, prior=(), expected=None, names='str', u=None):
     """(why or None, trace); `prior`: byte strings inspected before, in the same process; `expected`: the
     expected_format handed to the wrapper (its cut-off of the stream is C06's subject; every clause about the
     decision still applies); `names`: how format names are passed (plain str or a str subclass)"""
     inspect_prior(prior)
-    t = G.wrap_trace(allowed, data, sizes, expected, names)
+    try:
+        t = G.wrap_trace(allowed, data, sizes, expected, names, u)
+    except G.CallFormError as e:
+        return str(e), {'decisions': [], 'final': (None, None), 'matches': {}, 'escaped': None}
     allowed_set = set(allowed) if allowed else set(G.ALLF)
     if set(t['names']) - allowed_set:
         return 'inspectors outside allowed_formats were created: %s%s' % (
@@ -334,12 +387,21 @@ def detect_oracle(data, tmp):
     path = os.path.join(tmp, 'img')
     with open(path, 'wb') as fh:
         fh.write(data)
-    try:
-        i = F.detect_file_format(path)
-    except F.ImageFormatError:
+    names = []
+    for tag in G.call_tags('detect_file_format', [path]):          # positional and filename=...
+        try:
+            i = G.invoke(F.detect_file_format, 'detect_file_format', [path], tag)
+            names.append(i.NAME if i is not None else None)
+        except F.ImageFormatError:
+            names.append('ImageFormatError')
+        except G.CallFormError as e:
+            return str(e)
+        except Exception as e:
+            return 'detect_file_format raised %s' % type(e).__name__
+    if len(set(names)) != 1:
+        return 'detect_file_format(path) and detect_file_format(filename=path) disagree: %s' % names
+    if names[0] == 'ImageFormatError':
         return None
-    except Exception as e:
-        return 'detect_file_format raised %s' % type(e).__name__
     if i is None:
         return 'detect_file_format returned None'
     if i.NAME != 'raw' and not G.signature_present(i.NAME, data):
@@ -347,10 +409,33 @@ def detect_oracle(data, tmp):
     return None
 
 
+def registry_oracle():
+    """get_inspector(format_name) in both call forms: the class registered under that name, None otherwise"""
+    F = G.fi()
+    for name in G.ALLF + ['foo', '', 'QCOW2']:
+        for tag in G.call_tags('get_inspector', [name]):
+            try:
+                cls = G.invoke(F.get_inspector, 'get_inspector', [name], tag)
+            except G.CallFormError as e:
+                return str(e)
+            except Exception as e:
+                return '%s raised %s' % (G.render_call('get_inspector', [name], tag), type(e).__name__)
+            if name in G.ALLF:
+                if cls is None or getattr(cls, 'NAME', None) != name:
+                    return '%s returned %r' % (G.render_call('get_inspector', [name], tag), cls)
+            elif cls is not None:
+                return '%s returned %r for an unknown name' % (G.render_call('get_inspector', [name], tag), cls)
+    return None
+
+
 def search(ctx, seeds, full=False):
     rng = ctx.rng
     known_like, fresh = [], []
     kinds = {}
+    ctx.evaluations += 1
+    why0 = registry_oracle()
+    if why0:
+        fresh.append(Failure({'registry': True}, {'kind': 'get_inspector', 'what': why0}))
 
     def add(case, why, f1=False):
         kind = ' '.join(w for w in why.split(' ') if not any(ch.isdigit() for ch in w))[:70]
@@ -361,17 +446,20 @@ def search(ctx, seeds, full=False):
             return
         (known_like if f1 else fresh).append(Failure(case, {'kind': kind, 'what': why}))
 
-    def run(label, data, al, sizes, prior=(), expected=None, names='str'):
+    def run(label, data, al, sizes, prior=(), expected=None, names='str', u=None):
         ctx.evaluations += 1
-        why, t = oracle(al, data, sizes, prior, expected, names)
+        why, t = oracle(al, data, sizes, prior, expected, names, u)
         if why and len(fresh) < 8:
-            if names != 'str' and oracle(al, data, sizes, prior, expected, 'str')[0]:
+            if names != 'str' and oracle(al, data, sizes, prior, expected, 'str', u)[0]:
                 names = 'str'
-            if expected is not None and oracle(al, data, sizes, prior, None, names)[0]:
+            if expected is not None and oracle(al, data, sizes, prior, None, names, u)[0]:
                 expected = None
+            if u and G.usage(u) != G.DEFAULT_USAGE and oracle(al, data, G.effective(len(data), sizes), prior, expected,
+                                                              names, None)[0]:
+                u, sizes = None, G.effective(len(data), sizes)          # the usage is not what makes it fail
 
             def still(sub):
-                return oracle(al, data, sub, prior, expected, names)[0] is not None
+                return oracle(al, data, sub, prior, expected, names, u)[0] is not None
             small = sizes
             for cand in ([len(data), 0], [4096] * (len(data) // 4096 + 1) + [0], [512] * (len(data) // 512 + 1) + [0]):
                 if len(cand) < len(small) and still(cand):
@@ -379,10 +467,43 @@ def search(ctx, seeds, full=False):
                     break
             if 1 < len(small) <= 48:
                 small = common.shrink_list(small, still, max_steps=30)
-            add(case_of(label, data, al, small, prior=list(prior) or None, expected=expected, names=names),
-                '%s: %s%s' % (label, oracle(al, data, small, prior, expected, names)[0],
-                              '' if names == 'str' else ' [format names passed as %s]' % names))
+            add(case_of(label, data, al, small, prior=list(prior) or None, expected=expected, names=names, u=u),
+                '%s: %s%s%s' % (label, oracle(al, data, small, prior, expected, names, u)[0],
+                                '' if names == 'str' else ' [format names passed as %s]' % names, show_usage(u, small)))
         return t
+
+    def variants(label, data, al, sizes):
+        """the same content, allowed_formats and chunking through the plain usage and through an unusual but
+        legal one (constructor call form, read(size=...), sizes None / -1 / -2 / 0, a real file, an iterator
+        source consumed by next / for / break-and-resume / iter() twice, close() twice): every clause holds and
+        the decisions are the same"""
+        n = len(data)
+        u = G.pick_usage(rng, None, al, iterator=False, p_plain=0.0)
+        ops = list(sizes)
+        if rng.random() < 0.4 and len(sizes) <= 64:
+            u['iterator'] = True
+            u['proto'] = rng.choice(G.ITER_PROTOS)
+        elif rng.random() < 0.7:
+            ops = G.vary_ops(sizes, n, rng, u['source'])
+        eff = G.effective(n, ops)
+        if u.get('iterator'):
+            # the iterator's items are the chunks; the model / baseline read exactly those
+            keep = eff
+        else:
+            keep = eff
+        t0 = run(label, data, al, keep)
+        t1 = run(label, data, al, ops, (), None, 'str', u)
+        if 'wrapper' in t0 and 'wrapper' in t1 and len(fresh) < 8:
+            a, b = summary(t0), summary(t1)
+            if u.get('iterator'):
+                # an iterator source ends with StopIteration, a file-like one with whatever reads were issued:
+                # compare the decisions chunk by chunk and the final one
+                k = min(len(a[0]), len(b[0]))
+                a, b = (a[0][:k],) + a[1:], (b[0][:k],) + b[1:]
+            if a != b:
+                add(case_of(label, data, al, ops, u=u),
+                    '%s: the decisions depend on how the wrapper is used: %s%s' % (label, diff_summary(a, b),
+                                                                                    show_usage(u, ops)))
 
     def sequences(n_later):
         """a valid image of each format first, then one or two later streams: every clause on the later
@@ -422,7 +543,7 @@ def search(ctx, seeds, full=False):
                 run(s.get('label', 'seed'), data, None, [4096] * (len(data) // 4096 + 2))
             else:
                 run(s.get('label', 'seed'), data, s.get('allowed'), s['sizes'], priors_of(s), s.get('expected'),
-                    s.get('names', 'str'))
+                    s.get('names', 'str'), s.get('usage'))
         rounds = (2 if full else 1) if ctx.quick else (4 if full else 2)
         for _ in range(rounds):
             for label, data, al, sizes in G.c03_text_descriptors(rng, ctx.quick):
@@ -457,6 +578,9 @@ def search(ctx, seeds, full=False):
                                 '%s: read-size-dependent decision: formats %s with one read sequence, %s with another'
                                 % (label, a[0], b[0]), f1)
                             break
+                if not big:
+                    variants(label, data, rng.choice([None, None, rng.choice(G.ALLOWED_FAMILY)]),
+                             rng.choice([s_ for s_ in rs if len(s_) <= 200] or rs[:1]))
                 if not big:            # an expected format (inside / outside allowed, unknown), names as str subclasses
                     al = rng.choice([None, rng.choice(G.ALLOWED_FAMILY)])
                     e, nk = pick_opts(rng, al)
@@ -530,6 +654,10 @@ def replay(ctx, payload):
         print('nothing to replay: this file names the obligation that no longer checks:')
         print(payload.get('no_longer_checks'))
         return 0
+    if case.get('registry'):
+        why = registry_oracle()
+        print('property oracle on the implementation:', why)
+        return 1 if why else 0
     data = G.decode_content(case['content'])
     al = case.get('allowed')
     exp, nk = case.get('expected'), case.get('names', 'str')
@@ -571,9 +699,22 @@ def replay(ctx, payload):
             continue
         sizes = case[key]
         print('read sizes    :', sizes[:40])
-        print('implementation:', impl_wrap(al, data, sizes, exp, nk).replace('\t', '  ||  '))
+        uu = case.get('usage') if key == 'sizes' else None
+        if uu:
+            print('usage         :', show_usage(uu, sizes))
+            if uu.get('form'):
+                print('               ', G.render_call('InspectWrapper', [io.BytesIO(), exp, al or None], uu['form']))
+        print('implementation:', impl_wrap(al, data, sizes, exp, nk, uu).replace('\t', '  ||  '))
         print('model         :', cut_abort(proj(ctx.driver.ask(G.wrap_req(al, exp, data, sizes))), exp).replace('\t', '  ||  '))
-        why, _ = oracle(al, data, sizes, (), exp, nk)
+        why, _ = oracle(al, data, sizes, (), exp, nk, uu)
+        if uu and not why:
+            eff = G.effective(len(data), sizes)
+            a, b = summary(oracle(al, data, eff, (), exp, nk)[1]), summary(oracle(al, data, sizes, (), exp, nk, uu)[1])
+            if uu.get('iterator'):
+                k = min(len(a[0]), len(b[0]))
+                a, b = (a[0][:k],) + a[1:], (b[0][:k],) + b[1:]
+            if a != b:
+                why = 'the decisions depend on how the wrapper is used: ' + diff_summary(a, b)
         print('property oracle on the implementation:', why)
         rc = rc or (1 if why else 0)
     if 'sizes_b' in case:
